@@ -160,16 +160,17 @@ def r3(ctx):
     repo = ctx.repo
     bp = ctx.fn("connection:ConnectionBase._build_packet")
     cfg = cfg_of(bp)
-    flag = [n for n in walk_own(bp.node) if isinstance(n, ast.Assign) and norm(n.targets[0]) == "send_keep_alive"]
+    from .common import sym_text
     tdef = [n for n in walk_own(bp.node) if isinstance(n, ast.Assign) and norm(n.value) == "self.clock()"]
     tvar = norm(tdef[0].targets[0]) if tdef else "t0"
-    ok = len(flag) == 1 and norm(flag[0].value) in ("%s - self.last_send_keep_alive_time > self.send_keep_alive_interval" % tvar,
-                                                    "%s - self.last_send_keep_alive_time >= self.send_keep_alive_interval" % tvar)
-    ctx.check(ok, "C12.R3", bp, "keep-alive flag := clock - last_send_keep_alive_time > send_keep_alive_interval", witness=[norm(f.value) for f in flag])
     call = calls_named(bp, "_build_packet_impl")
     if ctx.require("C12.R3", bp, "_build_packet_impl call", len(call), 1):
-        ctx.check(len(call[0].args) == 3 and norm(call[0].args[1]) == "send_keep_alive" and norm(call[0].args[0]) == tvar, "C12.R3", bp, "the flag is handed to the packet builder",
-                  witness=[norm(a) for a in call[0].args])
+        # the value of the second argument, through whatever temporaries it is computed
+        args = [sym_text(bp, a, cfg.node_of(call[0])) for a in call[0].args]
+        ok = len(args) == 3 and args[1] in ("%s - self.last_send_keep_alive_time > self.send_keep_alive_interval" % tvar,
+                                            "%s - self.last_send_keep_alive_time >= self.send_keep_alive_interval" % tvar)
+        ctx.check(ok, "C12.R3", bp, "keep-alive flag := clock - last_send_keep_alive_time > send_keep_alive_interval", witness=args)
+        ctx.check(len(args) == 3 and args[0] == tvar, "C12.R3", bp, "the flag is handed to the packet builder", witness=args)
         pv = norm(call[0]._parent.targets[0]) if isinstance(call[0]._parent, ast.Assign) else "pkt"
         ws = [n for n in cfg.stmts((ast.Assign,)) if norm(n.ast.targets[0]) == "self.last_send_keep_alive_time"]
         ok = len(ws) == 1 and norm(ws[0].ast.value) == tvar
@@ -316,7 +317,8 @@ def r5(ctx):
     dis = [n for n in cfg.stmts((ast.Assign,)) if norm(n.ast.targets[0]) == "self.status" and norm(n.ast.value).endswith(".DISCONNECTED")]
     if not ctx.require("C12.R5", up, "status = DISCONNECTED on connect timeout", len(dis), 1):
         return
-    conds = [(norm(t), p) for (t, p) in cfg.conditions_of(dis[0].id)]
+    from .common import sym_text
+    conds = [(sym_text(up, t, cfg.node_of(t) or dis[0]), p) for (t, p) in cfg.conditions_of(dis[0].id)]
     dep = [c for c in conds if "connection_callback" in c[0]]
     ctx.check(not dep, "C12.R5", up, "the connect timeout does not depend on a callback having been given",
               "without a callback the status must still become DISCONNECTED", witness=conds, line=dis[0].lineno)
@@ -325,12 +327,12 @@ def r5(ctx):
     ctx.check(bool(tmo) and started, "C12.R5", up, "timeout test: clock - time_client_hello_sent > temp_connection_timeout while a hello is outstanding", witness=conds, line=dis[0].lineno)
     cbs = [c for c in calls_named(up, "connection_callback")]
     for c in cbs:
-        cc = [(norm(t), p) for (t, p) in cfg.conditions_of(cfg.node_of(c).id)]
+        cc = [(sym_text(up, t, cfg.node_of(t) or cfg.node_of(c)), p) for (t, p) in cfg.conditions_of(cfg.node_of(c).id)]
         ctx.check(("self.connection_callback", True) in cc and [norm(a) for a in c.args] == ["False"], "C12.R5", up, c, "the callback is optional and reports False", witness=cc, line=c.lineno)
         ctx.check(all(x in cc for x in conds), "C12.R5", up, "the callback fires on the timeout path only", witness=cc, line=c.lineno)
     ctx.require("C12.R5", up, "connection_callback(False) call", len(cbs), 1)
     rs = [n for n in cfg.stmts((ast.Assign,)) if norm(n.ast.targets[0]) == "self.time_client_hello_sent" and norm(n.ast.value) == "0"]
-    ok = len(rs) == 1 and sorted((norm(t), p) for (t, p) in cfg.conditions_of(rs[0].id)) == sorted(conds)
+    ok = len(rs) == 1 and sorted((sym_text(up, t, cfg.node_of(t) or rs[0]), p) for (t, p) in cfg.conditions_of(rs[0].id)) == sorted(conds)
     ctx.check(ok, "C12.R5", up, "the outstanding-hello marker is cleared on the timeout path", "the timeout fires once", witness=[norm(r.ast) for r in rs])
     # sibling: _recvServerHello treats the callback as optional and clears the marker
     rs2 = ctx.fn("connection:ClientServerConnection._recvServerHello")
